@@ -511,8 +511,12 @@ where
         self: &'a mut Pin<&mut Self>,
         cx: &mut Context<'_>,
     ) -> Poll<Option<Result<(), ChannelError<C::Error>>>> {
-        while self.poll_ready(cx)?.is_pending() {
+        if self.poll_ready(cx)?.is_pending() {
+            // Flushing may be what makes room in the transport. If the transport is still not
+            // ready once the flush completes, poll_ready has registered the waker, so return
+            // control to the executor rather than retrying within this poll.
             ready!(self.poll_flush(cx)?);
+            ready!(self.poll_ready(cx)?);
         }
         Poll::Ready(Some(Ok(())))
     }
